@@ -94,8 +94,17 @@ namespace hgraph
             // as the general fallback. That fallback may replace the planned
             // state with immutable compact storage, in which case a later tick
             // must capture again rather than request a mutation view.
+            //
+            // A set or dictionary is always captured: when the written port is a
+            // reference that was re-pointed in the same cycle in which its new target
+            // ticked, delta_value() holds the new target's own tick only, and the
+            // removals of the old target's entries - which the input reports through
+            // its structural accessors, and capture_delta with them - would be lost.
             const ValueView state = source_node.state();
-            if (!try_copy_feedback_state(state, ts.delta_value()))
+            const auto *ts_schema = ts.schema();
+            const bool structural = ts_schema != nullptr &&
+                                    (ts_schema->kind == TSTypeKind::TSS || ts_schema->kind == TSTypeKind::TSD);
+            if (structural || !try_copy_feedback_state(state, ts.delta_value()))
             {
                 source_node.replace_state(capture_delta(ts));
             }
